@@ -81,6 +81,9 @@ struct SimDev {
   Universe* u;
   vbi_raw_decoder rd;
   unsigned services = 0;
+  // like io-v4l2k.c: every service update suspends capturing (the driver would answer EBUSY otherwise), only an update with
+  // commit = TRUE starts it again; read() while suspended fails with ESRCH
+  bool suspended = false;
   int fd = -1;
   bool thread_mode = false;
   bool in_read_wait = false;
@@ -222,7 +225,7 @@ static int dev_make_frame(SimDev* d, int i, vbi_sliced* out) {
 
 static bool dev_readable(SimDev* d) {
   simk::Kernel& k = d->u->k;
-  if (d->services == 0) return false;
+  if (d->services == 0 || d->suspended) return false;
   if (k.now_ns() >= d->t_next) return true;
   if (d->wake_armed != d->t_next) {
     d->wake_armed = d->t_next;
@@ -238,6 +241,7 @@ static int dev_read(vbi_capture* vc, vbi_capture_buffer** raw, vbi_capture_buffe
   simk::Kernel& k = u.k;
   if (getenv("ZSIM_KTRACE")) fprintf(stderr, "    dev_read: fd %d open %d services %x now %lld t_next %lld thread_mode %d\n", d->fd, k.get(d->fd) != nullptr, d->services, (long long)k.now_ns(), (long long)d->t_next, d->thread_mode);
   if (k.get(d->fd) == nullptr) { errno = EBADF; return -1; }  // the daemon's "dirty hack" closed the descriptor
+  if (d->suspended) { u.ctx.count("dev_read_while_suspended"); errno = ESRCH; return -1; }
   if (raw && *raw == nullptr) { /* raw data is never available from this device */ }
   int64_t deadline = k.now_ns() + (int64_t)timeout->tv_sec * 1000000000ll + (int64_t)timeout->tv_usec * 1000ll;
   for (;;) {
@@ -286,7 +290,7 @@ static unsigned int dev_update_services(vbi_capture* vc, vbi_bool reset, vbi_boo
   simk::KScope ks;  // driver context: its allocations are not the daemon's
   SimDev* d = (SimDev*)vc;
   Universe& u = *d->u;
-  (void)commit;
+  d->suspended = true;
   if (reset) {
     vbi_raw_decoder_reset(&d->rd);
     dev_set_params(d);
@@ -299,7 +303,8 @@ static unsigned int dev_update_services(vbi_capture* vc, vbi_bool reset, vbi_boo
   if (was_idle && d->services) {  // streaming starts now: the first frame is one period away
     d->t_next = (u.k.now_ns() / u.period_ns + 1) * u.period_ns;
   }
-  u.ctx.log("dev update_services reset=%d services=%x strict=%d -> %x (device now %x)", reset, services, strict, g, d->services);
+  if (commit && d->services != 0) d->suspended = false;
+  u.ctx.log("dev update_services reset=%d commit=%d services=%x strict=%d -> %x (device now %x)", reset, commit, services, strict, g, d->services);
   u.ctx.count("dev_update_services");
   if (!g && errstr) { *errstr = strdup("Sorry, the simulated device cannot capture any of the requested data services."); }
   u.k.wake_all();
@@ -644,6 +649,7 @@ static void audit(Universe& u) {
   for (int i = 0; i < n; i++) { zvbid_client_view v; if (zvbid_client(i, &v) && v.state == 2 /* FORWARD */) uni |= v.all_services; }
   if ((dv.open != 0) != (uni != 0)) { u.ctx.fail("oracle:device-open-iff-subscribed", "at a quiescent point the device is %s but the union of the clients' services is %x (%d connections)", dv.open ? "open" : "closed", uni, n); return; }
   if (dv.open && u.dev && (u.dev->services & uni) != uni) { u.ctx.fail("oracle:device-services", "device captures %x, the clients were granted %x", u.dev->services, uni); return; }
+  if (dv.open && u.dev && u.dev->services != 0 && u.dev->suspended) { u.ctx.fail("oracle:device-suspended", "at a quiescent point the device is open for services %x but capturing is suspended: the daemon's last service update was not committed, nobody receives anything", u.dev->services); return; }
   if ((u.dev != nullptr) != (dv.open != 0)) { u.ctx.fail("oracle:device-leak", "daemon thinks the device is %s, the driver has it %s", dv.open ? "open" : "closed", u.dev ? "open" : "closed"); return; }
   u.ctx.count("audits");
   uint64_t st = (uint64_t)n | (uint64_t)dv.n_sliced << 4 | (uint64_t)dv.n_free << 10 | (uint64_t)(uni & 0xFFFF) << 16 | (uint64_t)dv.use_thread << 40;
